@@ -59,6 +59,9 @@ func init() {
 			{ID: "R02n", Floor: 1, Doc: "the verifying readers keep no result between calls beyond what the pinned tree keeps (= R08o)", Run: ruleR08o},
 			{ID: "R02o", Floor: 1, Doc: "the bufio.Reader a root-module CarReader owns came out of the pool: every store to CarReader.br is nil or the result of bufioReaderPool.Get (Next gives it back to the pool; a reader the caller owns would be handed to another CarReader while still in use)", Run: ruleR02o},
 			{ID: "R02p", Floor: 3, Doc: "a full inspection ends its scan cleanly only on the bare io.EOF of the length read; every other read failure (a wrapped or mapped EOF included) is reported, never taken for the end of the archive (= R13b)", Run: ruleR13b},
+			{ID: "R02q", Floor: 3, Doc: "who may issue a single Read: only the functions that do so in the pinned tree (the reader adapters forwarding one Read, the loops over Read); everything else fills its buffers with io.ReadFull / io.Copy / binary.Read — a short read without error is legal for any io.Reader", Run: ruleR02q},
+			{ID: "R02r", Floor: 1, Doc: "the clean end of an archive is the bare io.EOF of a length-prefix read: no errors.Is(err, io.EOF) in the library (the CID decoders wrap io.EOF for a CID cut short, and a wrapped EOF is a truncation)", Run: ruleR02r},
+			{ID: "R02s", Floor: 1, Doc: "the CID a full inspection rebuilds from the hashed bytes has the version of the section's CID (NewCidV0 for a CIDv0 section, NewCidV1 for a CIDv1 one, or Prefix.Sum)", Run: ruleR02s},
 		},
 	})
 }
